@@ -22,9 +22,13 @@ def leaves():
             self.k = k
 
         def forward(self, x, context=None):
+            if context is not None:         # conditional leaf: shift and log-det move with the row's context (integers: exact)
+                return x * 2 + self.k + 8 * context[:, :1], x.new_full((x.shape[0],), 2.0 ** self.k + LD_EPS[0]) + 4096 * context[:, 0]
             return x * 2 + self.k, x.new_full((x.shape[0],), 2.0 ** self.k + LD_EPS[0])
 
         def inverse(self, y, context=None):
+            if context is not None:
+                return (y - self.k - 8 * context[:, :1]) / 2, y.new_full((y.shape[0],), -(2.0 ** self.k + LD_EPS[0])) - 4096 * context[:, 0]
             return (y - self.k) / 2, y.new_full((y.shape[0],), -(2.0 ** self.k + LD_EPS[0]))
 
     class Rev(Transform):
@@ -212,6 +216,73 @@ def run(tier, seed):
                     break
     finally:
         LD_EPS[0] = 0.0
+    # conditional leaves (shift and log-det move with the row's context): every wrapper hands the caller's context to every part, in
+    # BOTH directions; implementation against plain composition, exact
+    cx = torch.tensor([[3.0, 1.0], [-2.0, 5.0]], dtype=torch.float64)
+    for prog in progs[:150]:
+        t, _ = build(prog, Tag, Rev)
+        x = torch.tensor([[16.0, 32.0, 48.0, 80.0], [-64.0, 0.0, 112.0, 128.0]], dtype=torch.float64)
+        ck.case(("prog-context", str(prog)), nontrivial=True)
+        for direction in ("forward", "inverse"):
+            got = attempt(t.forward if direction == "forward" else t.inverse, x, cx)
+            ref = (reference if direction == "forward" else reference_inv)(prog, x, cx)
+            if got[0] != "ok":
+                ck.finding("wrappers:raises:with-context", "program %s %s with a context raised %s" % (prog, direction, got[1:]),
+                           {"search": "prog-context", "prog": prog, "direction": direction})
+                break
+            if not torch.equal(got[1][0], ref[0]) or not torch.equal(got[1][1], ref[1]):
+                ck.finding("wrappers:not-function-composition:with-context",
+                           "program %s %s with context rows %s: got %s / %s, plain composition of the conditional parts gives %s / %s"
+                           % (prog, direction, cx.tolist(), got[1][0].tolist(), got[1][1].tolist(), ref[0].tolist(), ref[1].tolist()),
+                           {"search": "prog-context", "prog": prog, "direction": direction, "context": cx.tolist()})
+                break
+    # mode switches: after w.train() / w.eval() - whatever modes the parts and the wrapper were in before - every part is in that
+    # mode, so the wrapper is the composition of its parts in that mode (batch statistics in training mode, running ones otherwise)
+    import copy as copy_
+    from nflows.transforms import normalization as nm_, base as b_
+    def mode_parts():
+        torch.manual_seed(3)
+        bn = nm_.BatchNorm(4).double()
+        with torch.no_grad():
+            bn.running_mean.copy_(torch.tensor([0.5, -1.0, 2.0, 0.0])); bn.running_var.copy_(torch.tensor([2.0, 0.5, 1.5, 3.0]))
+        return Tag(1).double(), bn
+    xm = torch.tensor([[1.0, 2.0, 3.0, 5.0], [-4.0, 0.0, 7.0, 8.0], [2.0, -1.0, 0.5, 3.0]], dtype=torch.float64)
+    for wname, wrap in (("CompositeTransform", lambda ps: b_.CompositeTransform(ps)),
+                        ("CompositeTransform(nested)", lambda ps: b_.CompositeTransform([b_.CompositeTransform(ps)])),
+                        ("InverseTransform(InverseTransform(Composite))", lambda ps: b_.InverseTransform(b_.InverseTransform(b_.CompositeTransform(ps))))):
+        for hist in (("parts-eval", "wrap", "train"), ("wrap", "eval", "part-train", "eval"), ("wrap", "train", "part-eval", "train"),
+                     ("parts-eval", "wrap", "eval", "train")):
+            tag_, bn_ = mode_parts()
+            w = None
+            for step in hist:
+                if step == "parts-eval":
+                    tag_.eval(); bn_.eval()
+                elif step == "wrap":
+                    w = wrap([tag_, bn_])
+                elif step == "train":
+                    w.train()
+                elif step == "eval":
+                    w.eval()
+                elif step == "part-train":
+                    bn_.train()
+                elif step == "part-eval":
+                    bn_.eval()
+            want = hist[-1] == "train"
+            ck.case(("mode", wname, hist), nontrivial=True)
+            case = {"search": "mode-switch", "wrapper": wname, "history": list(hist)}
+            flags = [m_.training for m_ in w.modules()]
+            ref_bn = copy_.deepcopy(bn_).train(want)
+            with torch.no_grad():
+                y1, l1 = tag_(xm)
+                y2, l2 = ref_bn(y1)
+                got = attempt(copy_.deepcopy(w), xm)
+            if any(f_ != want for f_ in flags):
+                ck.finding("wrappers:mode-switch-does-not-reach-parts:%s" % wname.split("(")[0],
+                           "%s after %s: training flags of its modules are %s" % (wname, " > ".join(hist), flags), case)
+            elif got[0] == "ok" and (not torch.allclose(got[1][0], y2, atol=1e-12) or not torch.allclose(got[1][1], l1 + l2, atol=1e-12)):
+                ck.finding("wrappers:not-function-composition:after-mode-switch:%s" % wname.split("(")[0],
+                           "%s after %s differs from its parts chained by hand in %s mode by %.3g"
+                           % (wname, " > ".join(hist), "training" if want else "evaluation", float((got[1][0] - y2).abs().max())), case)
     # the library's own three-part composite, CompositeCDFTransform(squash, cdf) = squash ; cdf ; squash^-1 with ONE squashing
     # transform: after its parameter moves (a training step), the composite is still that composition
     from nflows.transforms import nonlinearities as nl_, base as base_
@@ -243,39 +314,43 @@ def run(tier, seed):
     return ck.finish()
 
 
-def reference(prog, x):
-    """plain function composition, written independently of the library wrappers"""
+def reference(prog, x, c=None):
+    """plain function composition, written independently of the library wrappers (c: the context every leaf is shown)"""
     kind = prog[0]
     b = x.shape[0]
     if kind in ("leaf", "shared"):
+        if c is not None:
+            return x * 2 + prog[1] + 8 * c[:, :1], x.new_full((b,), 2.0 ** prog[1] + LD_EPS[0]) + 4096 * c[:, 0]
         return x * 2 + prog[1], x.new_full((b,), 2.0 ** prog[1] + LD_EPS[0])
     if kind == "rev":
         return x.flip(1), x.new_zeros(b)
     if kind == "comp":
         ld = x.new_zeros(b)
         for p in prog[1]:
-            x, l = reference(p, x)
+            x, l = reference(p, x, c)
             ld = ld + l
         return x, ld
     if kind == "inv":
-        return reference_inv(prog[1], x)
+        return reference_inv(prog[1], x, c)
 
 
-def reference_inv(prog, y):
+def reference_inv(prog, y, c=None):
     kind = prog[0]
     b = y.shape[0]
     if kind in ("leaf", "shared"):
+        if c is not None:
+            return (y - prog[1] - 8 * c[:, :1]) / 2, y.new_full((b,), -(2.0 ** prog[1] + LD_EPS[0])) - 4096 * c[:, 0]
         return (y - prog[1]) / 2, y.new_full((b,), -(2.0 ** prog[1] + LD_EPS[0]))
     if kind == "rev":
         return y.flip(1), y.new_zeros(b)
     if kind == "comp":
         ld = y.new_zeros(b)
         for p in reversed(prog[1]):
-            y, l = reference_inv(p, y)
+            y, l = reference_inv(p, y, c)
             ld = ld + l
         return y, ld
     if kind == "inv":
-        return reference(prog[1], y)
+        return reference(prog[1], y, c)
 
 
 def multiscale(ck, drv, Tag, Rev, tier, r):
